@@ -148,6 +148,8 @@ RES_SHOTS = [
     [("c[1]", 1)],
     [("c", [0, 1]), ("c", 2)],
     [("e", [1, [0, 1]]), ("e", 0)],
+    [("c", [])],  # a register of length zero (first-seen length 0 is still a length)
+    [("d", 1), ("c", [])],
 ]
 
 
